@@ -101,7 +101,7 @@ def check(ctx, report):
     # ---- R9: the blob that is hashed is the blob that was parsed only when every structure of the key module writes what it holds as
     # it holds it: sequences in stored (= wire) order, attributes themselves and no constant in their place (shared with C07.R13)
     from .c11 import fields_written_as_stored
-    fields_written_as_stored(ctx, report, RULE='C16.R9', kinds=None, what=('in place of attribute', 'items in wire order'),
+    fields_written_as_stored(ctx, report, RULE='C16.R9', kinds=None, what=('in place of attribute', 'items in wire order'), links=True,
                              modules={'cryptoparser.ssh.key'},
                              title='structures of host keys and certificates are composed as held: items in stored order, no constant in place of an attribute')
     report.floor('C16.R9', 100, 'fields of host key / certificate structures')
